@@ -882,6 +882,11 @@ class TunnelCommunity(Community):
             if request.from_circuit_id not in self.exit_sockets:
                 self.logger.info("Created for unknown exit socket %s", request.from_circuit_id)
                 return
+            if self.exit_sockets[request.from_circuit_id].hop.peer is not request.peer:
+                # The circuit that asked us to extend is gone and its id has been given to somebody else since.
+                self.logger.warning("Created for circuit %s, which changed hands since the extend",
+                                    request.from_circuit_id)
+                return
             session_keys = self.exit_sockets[request.from_circuit_id].hop.keys
             self.remove_exit_socket(request.from_circuit_id, remove_now=True)
 
